@@ -695,3 +695,8 @@ PROOF_MODULES = PROOF_MODULES + ['Compute.Lemmas.SrcLoops']
 PROOF_MODULES = PROOF_MODULES + [m for m in ['Compute.Lemmas.Rounding5', 'Compute.Props.Rounding5'] if m not in PROOF_MODULES]
 REQUIRED_THEOREMS = REQUIRED_THEOREMS + ['Cv.Rounding5.horner_error', 'Cv.Rounding5.horner_error_classical', 'Cv.Rounding5.horner_error_sum', 'Cv.Rounding5.predict_error']
 NOT_PROVED = [('floating-point rounding of the normal-equation solve (theorems are over a field; the float gap is covered by the bit-exact tie plus the cond(V^T V)-scaled oracle); rounding of predict IS proved in the standard model (Props/Rounding5): |Horner(c,v) - p(v)| <= gamma_(2n) sum|a_i||v|^i (gamma_(2n+1) without representable coefficients) for every entry of predict' if str(x).startswith('floating-point rounding of the normal-equation solve') else x) for x in NOT_PROVED]
+
+# --- deep theorems (Rounding6: end-to-end residual / backward-error bounds in the standard model, wired by the lead)
+PROOF_MODULES = PROOF_MODULES + [m for m in ['Compute.Lemmas.Rounding6', 'Compute.Props.Rounding6'] if m not in PROOF_MODULES]
+REQUIRED_THEOREMS = REQUIRED_THEOREMS + ['Cv.Rounding6.fit_residual', 'Cv.Rounding6.vandermonde_entry_fac', 'Cv.Rounding6.powi_fac', 'Cv.Rounding6.invertMatrix_residual', 'Cv.Rounding6.normal_residual_core']
+NOT_PROVED = list(NOT_PROVED) + ['floating-point rounding of the normal-equation route IS bounded end to end in the standard model (Props/Rounding6 fit_residual): the route forms an explicit inverse and multiplies, so the statement is a residual bound |V^T V c - V^T y| <= gamma_(3p+1) W Z + gamma_(p+1) |G| Z + gamma_(N+1)(|V|^T|V||c| + |V|^T|y|), Z = |X||b|, W = |L||L^T| or P^T|L||U| (computed factors), V the computed Vandermonde matrix (entries x^j(1+th), <= j roundings); a bound in terms of cond(V^T V) alone needs the unproved growth of the LU route and a bound on |X| - oracle only; on the LU route non-zero pivots are assumed']
